@@ -11,7 +11,7 @@ ids="$@"; [ -z "$ids" ] && ids=$(ls seeded)
 for id in $ids; do
   prop=$(python3 -c "import json;print(json.load(open('seeded/$id/meta.json'))['property'])")
   if [ -n "$(git -C "$repo" status --porcelain --untracked-files=no)" ]; then echo "$id: repository not clean"; exit 9; fi
-  git -C "$repo" apply "seeded/$id/patch.diff" || { echo "$id: patch does not apply"; continue; }
+  git -C "$repo" apply "$PWD/seeded/$id/patch.diff" || { echo "$id: patch does not apply"; continue; }
   out=$(VERIF_BUDGET_S=$budget ./run "$prop" --tier quick 2>&1); code=$?
   git -C "$repo" checkout -- .
   cls=$(echo "$out" | grep -m1 "class=" | sed 's/.*class=\([^ ]*\).*/\1/')
